@@ -99,7 +99,8 @@ def const_twins(tier):
     for ty, lo, hi in ([("i32", "-7", "1000"), ("u8", "3", "200"), ("f64", "-2.5", "1.0e10")] if tier == "quick" else
                        [("i8", "-7", "100"), ("u8", "3", "200"), ("i32", "-7", "1000"), ("u64", "5", "18446744073709551615"), ("i128", "-170141183460469231731687303715884105728", "9"),
                         ("usize", "0", "10"), ("f32", "-2.5", "1.0e10"), ("f64", "-2.5", "1.0e10")]):
-        for v in (["gt", "le", "pred"], ["ge", "lt"], []):
+        vlists = [["gt", "le", "pred"], ["ge", "lt"], []] + ([["finite"], ["ge", "finite", "le"]] if is_float(ty) else [])
+        for v in vlists:
             a = NumDecl(ty, v, san="fn", bounds="const", const_vals={"lo": lo, "hi": hi}, const_fn=True, name="A")
             b = NumDecl(ty, v, san="fn", bounds="const", const_vals={"lo": lo, "hi": hi}, const_fn=False, name="B")
             out.append((a, b))
@@ -128,6 +129,67 @@ def twin_module(a, b, idx):
     return src, hname
 
 
+OTHER = r"""
+pub mod other_types {
+    use super::*;
+    use nutype::nutype;
+    static mut MASK: i32 = 0; static mut K: i32 = 0;
+    #[derive(Debug, Clone, Copy, PartialEq)]
+    pub struct P { pub x: i32, pub y: i32 }
+    fn okp(p: &P) -> bool { (p.x & unsafe { MASK }) != 0 && p.y >= p.x }
+    fn sanp(p: P) -> P { P { x: p.x ^ unsafe { K }, y: p.y } }
+    #[derive(Debug, Clone, PartialEq)] pub struct PErr(pub i32);
+    fn vp(p: &P) -> Result<(), PErr> { if okp(p) { Ok(()) } else { Err(PErr(p.y)) } }
+
+    #[nutype(sanitize(with = sanp), validate(predicate = okp), derive(Debug))] pub struct NP(P);
+    #[nutype(sanitize(with = |p: P| sanp(p)), validate(predicate = |p: &P| okp(p)), derive(Debug))] pub struct NPC(P);
+    #[nutype(sanitize(with = |p| sanp(p)), validate(with = vp, error = PErr), derive(Debug))] pub struct NPE(P);
+    #[nutype(sanitize(with = sanp), derive(Debug))] pub struct NPS(P);
+    #[nutype(sanitize(with = |t: T| t), validate(predicate = |t: &T| *t != T::default()), derive(Debug))] pub struct W<T: Default + PartialEq>(T);
+    #[nutype(sanitize(with = |mut a: [u8; 2]| { a[0] |= 1; a }), validate(predicate = |a: &[u8; 2]| a[0] != a[1]), derive(Debug))] pub struct Arr([u8; 2]);
+    #[nutype(sanitize(with = |o: Option<i16>| o.map(|v| v | 1)), validate(predicate = |o: &Option<i16>| o.is_some()), derive(Debug))] pub struct Opt(Option<i16>);
+    #[nutype(validate(predicate = |r: &&'a str| !r.is_empty()), derive(Debug))] pub struct Ref<'a>(&'a str);
+    #[nutype(const_fn, sanitize(with = csan), validate(predicate = cok), derive(Debug))] pub struct CP(P);
+    const fn csan(p: P) -> P { P { x: p.x ^ 0x3, y: p.y } }
+    const fn cok(p: &P) -> bool { (p.x & 0x5) != 0 }
+
+    fn anyp() -> P { P { x: kani::any(), y: kani::any() } }
+
+    #[kani::proof]
+    pub fn c01_other_struct() {
+        unsafe { MASK = kani::any(); K = kani::any(); }
+        let raw = anyp(); let s = sanp(raw); let valid = okp(&s);
+        kani::cover!(valid); kani::cover!(!valid);
+        match NP::try_new(raw) { Ok(v) => { assert!(valid, "accepted a value violating the predicate"); assert!(v.into_inner() == s, "stored value is not the sanitized value"); } Err(_) => assert!(!valid, "rejected a valid value") }
+        match NPC::try_new(raw) { Ok(v) => { assert!(valid); assert!(v.into_inner() == s); } Err(_) => assert!(!valid) }
+        match NPE::try_new(raw) { Ok(v) => { assert!(valid); assert!(v.into_inner() == s); } Err(e) => { assert!(!valid); assert!(e == PErr(s.y), "custom error not returned unchanged"); } }
+        assert!(NPS::new(raw).into_inner() == s, "new() did not wrap the sanitized value");
+    }
+    #[kani::proof]
+    pub fn c01_other_generic_and_const() {
+        let x: i64 = kani::any();
+        match W::<i64>::try_new(x) { Ok(v) => { assert!(x != 0); assert!(v.into_inner() == x); } Err(_) => assert!(x == 0, "generic newtype rejected a valid value") }
+        let t: (u8, bool) = kani::any();
+        match W::<(u8, bool)>::try_new(t) { Ok(v) => { assert!(t != (0, false)); assert!(v.into_inner() == t); } Err(_) => assert!(t == (0, false)) }
+        let raw = anyp(); let s = csan(raw);
+        const C1: bool = CP::try_new(P { x: 3, y: 0 }).is_ok();
+        assert!(C1 == cok(&csan(P { x: 3, y: 0 })), "compile-time evaluation differs from run time");
+        match CP::try_new(raw) { Ok(v) => { assert!(cok(&s)); assert!(v.into_inner() == s); } Err(_) => assert!(!cok(&s)) }
+    }
+    #[kani::proof]
+    #[kani::unwind(4)]
+    pub fn c01_other_array_option_ref() {
+        let a: [u8; 2] = kani::any(); let sa = [a[0] | 1, a[1]];
+        match Arr::try_new(a) { Ok(v) => { assert!(sa[0] != sa[1]); assert!(v.into_inner() == sa); } Err(_) => assert!(sa[0] == sa[1]) }
+        let o: Option<i16> = kani::any();
+        match Opt::try_new(o) { Ok(v) => { assert!(o.is_some()); assert!(v.into_inner() == o.map(|x| x | 1)); } Err(_) => assert!(o.is_none()) }
+        let pick: bool = kani::any(); let r: &str = if pick { "" } else { "ab" };
+        match Ref::try_new(r) { Ok(v) => { assert!(!pick); assert!(v.into_inner().len() == 2); } Err(_) => assert!(pick) }
+    }
+}
+"""
+
+
 def generate(tier, seed):
     rng = random.Random(seed)
     plan = Plan("C01")
@@ -151,6 +213,11 @@ def generate(tier, seed):
         s, hn = twin_module(a, b, i)
         src.append(s)
         plan.add(H(hn, "main", {"twin": "const_fn vs plain", "type": a.ty, "validators": a.validators, "bounds": a.const_vals}))
+    src.append(OTHER)
+    for hn, what in [("c01_other_struct", "struct inner type: path / typed closure / untyped closure sanitizers, predicate and custom with+error validators"),
+                     ("c01_other_generic_and_const", "generic W<T> at i64 and (u8,bool); const_fn over a struct incl. compile-time evaluation"),
+                     ("c01_other_array_option_ref", "[u8;2], Option<i16>, &str inner types")]:
+        plan.add(H(hn, "main", {"case": what}))
     src.append(strprops.gen_c01(plan, tier, rng))
     plan.source = "\n".join(src)
     plan.bounds = {"integers/floats": "loop-free: every value of the inner type and (expression-bound declarations) every bound value; no unwinding involved",
